@@ -687,6 +687,13 @@ class Layouts:
         return self.eval_con(ret, fenv, depth + 1)
 
 
+_CONSTRUCT_SIGS = {
+    "ExprAdapter": ("subcon", "decoder", "encoder"), "ExprSymmetricAdapter": ("subcon", "encoder"), "ExprValidator": ("subcon", "validator"),
+    "Rebuild": ("subcon", "func"), "Default": ("subcon", "value"), "Mapping": ("subcon", "mapping"), "Slicing": ("subcon", "count", "start", "stop", "step", "empty"),
+    "NullStripped": ("subcon", "pad"),
+}
+
+
 def _lit(v):
     return ast.Constant(value=v)
 
@@ -849,6 +856,15 @@ class Describer:
                     kws = []
                     if cur.node is not None and isinstance(cur.node, ast.Call):
                         kws = [(k.arg, k.value) for k in cur.node.keywords if k.arg]
+                    # keyword spelling of the library's positional parameters: ExprAdapter(subcon, decoder=f, encoder=g) is ExprAdapter(subcon, f, g)
+                    sig = _CONSTRUCT_SIGS.get(cur.tag)
+                    if sig and kws:
+                        i_ = len(args) + 1  # the sub-construct is parameter 0
+                        kd = dict(kws)
+                        while i_ < len(sig) and sig[i_] in kd:
+                            args.append(kd.pop(sig[i_]))
+                            i_ += 1
+                        kws = [(k_, v_) for k_, v_ in kws if k_ in kd]
                     vals = [self.canon(a, mod) for a in args] + [f"{k}={self.canon(v, mod)}" for k, v in kws]
                     ann.append(f"{cur.tag}[" + "; ".join(str(v) for v in vals) + "]")
                 elif cur.tag == "Const":
